@@ -438,6 +438,20 @@ def dangling_calls(model, local_before: set) -> list[str]:
     return sorted(set(out))
 
 
+def missing_imports(model) -> set:
+    """(graph-like, domain) such that a node of that graph-like -- at any depth of If/Loop/Scan bodies -- is in a
+    domain for which the graph-like (main graph or function) has no opset import."""
+    import onnx_ir as ir
+    out = set()
+    tops = [("main", model.graph)] + [(f"{f.domain}::{f.name}", f) for f in model.functions.values()]
+    for where, gl in tops:
+        imports = set(gl.opset_imports)
+        for n in ir.traversal.RecursiveGraphIterator(gl):
+            if n.domain not in imports and not (n.domain in ("", "ai.onnx") and ({"", "ai.onnx"} & imports)):
+                out.add(f"{where}: {n.domain!r}")
+    return out
+
+
 def unnamed_used(model) -> int:
     """Number of values needed by serialization (graph i/o, initializers, node inputs/outputs that are used) without a name."""
     c = 0
@@ -574,6 +588,8 @@ def oracle_run(spec: dict, pspec, fault: str | None = None, max_rounds: int | No
     first_false = None
     inv0 = invariants(model)
     p = make_pass(pspec) if pass_obj is None else pass_obj      # pass_obj: a REUSED pass instance
+    chain = spec.get("_chain", True)
+    prev_res = None
     r = 0
     while r < bound:
         before = ser(model)
@@ -584,10 +600,13 @@ def oracle_run(spec: dict, pspec, fault: str | None = None, max_rounds: int | No
         inv_b = invariants(model) if r else inv0
         local_b = set(model.functions)
         dang_b = dangling_calls(model, local_b)
+        imp_b = missing_imports(model)
         raised = None
         try:
             with onnx_fault(fault):
-                res = p(model)
+                # r = p(r)-style repetition: from the second round on the previous PassResult is the argument
+                res = p(prev_res) if (chain and prev_res is not None) else p(model)
+            prev_res = res
         except Exception as e:  # noqa: BLE001
             raised = type(e).__name__
             # the identity rule enforced by PassBase.__call__ must never be tripped by built-in passes or by
@@ -639,6 +658,12 @@ def oracle_run(spec: dict, pspec, fault: str | None = None, max_rounds: int | No
         dang_a = dangling_calls(out, local_b)
         if not dang_b and dang_a:
             fail("dangling-call", "a call to a model-local function no longer resolves after the pass", dang_a)
+        imp_a = missing_imports(out)
+        # compared per DOMAIN: inlining may move a call that already lacked its import into another graph-like
+        dom_b = {x.split(": ", 1)[1] for x in imp_b}
+        new_imp = sorted(x for x in imp_a - imp_b if x.split(": ", 1)[1] not in dom_b)
+        if new_imp:
+            fail("opset-import", "a domain that nodes of the graph still use lost its opset import", new_imp)
         inv_a = invariants(out)
         if inv_a - inv_b:
             fail("invariants", "link consistency broken by the pass", sorted(inv_a - inv_b))
@@ -801,7 +826,8 @@ def gen_graph(rng, depth: int, prefix: str, outer: list[str], rich: bool, opset:
 
 
 def gen_spec(rng, rich: bool = True) -> dict:
-    spec = {"graph": gen_graph(rng, rng.choice([0, 1, 1, 2]), "", [], rich), "functions": [], "names": {}}
+    spec = {"graph": gen_graph(rng, rng.choice([0, 1, 1, 2]), "", [], rich), "functions": [], "names": {},
+            "_chain": rng.random() < 0.7}
     uses_f = "fdom" in json.dumps(spec["graph"])
     if uses_f or rng.random() < 0.25:
         fg = gen_graph(rng, 0, "F", [], False, top=True)
